@@ -59,6 +59,7 @@ func bsWriteScen(c *Ctx) {
 		sent    int64 // payload bytes the client put into messages
 		descr   string
 		name    string
+		resumed bool
 	}
 	var cases []*wcase
 	seenHash := map[string]bool{}
@@ -126,6 +127,12 @@ func bsWriteScen(c *Ctx) {
 			em := world.WriteMsg{Req: &bytestream.WriteRequest{WriteOffset: w.msgs[k].Req.WriteOffset}, Park: true}
 			w.msgs = append(w.msgs[:k:k], append([]world.WriteMsg{em}, w.msgs[k:]...)...)
 		}
+		if w.present && r.Chance(1, 3) {
+			// a resumed upload of a blob that someone else completed meanwhile:
+			// the first message carries a non-zero offset; the early exit applies
+			w.msgs[0].Req.WriteOffset = 1 + int64(r.Intn(int(w.b.Size())))
+			w.resumed = true
+		}
 		switch w.viol {
 		case pvOffset:
 			w.msgs[0].Req.WriteOffset = 1 + int64(r.Intn(5))
@@ -175,7 +182,7 @@ func bsWriteScen(c *Ctx) {
 						wantCommitted = -1
 					}
 					// either the early exit (size / -1) or a complete ordinary upload
-					if res.Size != wantCommitted && res.Size != w.sent {
+					if res.Size != wantCommitted && (res.Size != w.sent || w.resumed) {
 						s.Violate("C16.early-exit", site, "write of a present blob reports committed_size %d (want %d, or %d for a full upload)", res.Size, wantCommitted, w.sent)
 					}
 				}
